@@ -14,6 +14,16 @@ def call_library(interp, kind, name, args, kwargs, fr):
                 import math
                 return math.floor(v)
             return z3.ToInt(v) if z3.is_real(v) else v
+    if kind == "re" and name in ("match", "compile"):
+        pat = args[0]
+        if not isinstance(pat, str):
+            raise Unsupported("re with a symbolic pattern")
+        flags = args[2] if (name == "match" and len(args) > 2) else kwargs.get("flags", 0)
+        rx = RegexV(pat, int(flags) | 32)
+        if name == "compile":
+            return rx
+        from . import strings
+        return strings.regex_method(interp, rx, "match", [args[1]], {}, fr)
     raise Unsupported(f"library call {kind}.{name}")
 
 
